@@ -97,6 +97,21 @@ func runConcChecks(c *explore.Ctx, id string, drivers []concParams, bound int, p
 		d.QB, d.TB, d.WQ, d.WT = sb, sb, 0, 0
 		drivers = append(drivers, d)
 	}
+	// cheap first: the statement-granularity variants (bound 1: a few thousand executions each),
+	// then the drivers at their full bounds, then the second base schedule - if the time budget
+	// runs out it cuts the most expensive tail
+	sort.SliceStable(drivers, func(i, j int) bool {
+		rank := func(d concParams) int {
+			switch {
+			case d.Stmt:
+				return 0
+			case d.Rev:
+				return 2
+			}
+			return 1
+		}
+		return rank(drivers[i]) < rank(drivers[j])
+	})
 	hbWanted := explore.UseHB
 	for _, d := range drivers {
 		if !cfgSelected(d.Name) {
